@@ -523,6 +523,29 @@ def unguarded(sites):
     return out
 
 
+# ---------------------------------------------------------------- known findings
+FINDINGS = os.environ.get('VERIF_KNOWN_FINDINGS') or os.path.join(
+    os.path.dirname(os.path.dirname(os.path.abspath(__file__))), 'known_findings.json')
+
+
+def known_unguarded():
+    """(method, callee) of the entries c14:unguarded:<method>:<callee> with status `known` in
+    /verif/known_findings.json: the ONLY sites all_guarded excuses (emitted as `known_unguarded`
+    beside the table, so that flipping an entry to `fixed` tightens the theorem by itself)"""
+    out = []
+    try:
+        entries = json.load(open(FINDINGS))
+    except (OSError, ValueError):
+        return out
+    for f in entries:
+        key = f.get('key', '')
+        if f.get('property') == 'C14' and f.get('status') == 'known' and key.startswith('c14:unguarded:'):
+            parts = key.split(':')
+            if len(parts) == 4 and (parts[2], parts[3]) not in out:
+                out.append((parts[2], parts[3]))
+    return out
+
+
 # ---------------------------------------------------------------- output
 def coq_string(s):
     return '"' + s.replace('"', '""') + '"'
@@ -550,6 +573,10 @@ def emit_coq(sites, stats, path):
                                                        s['kind'], coq_scope(s['scope']), s['line']))
     lines.append(';\n'.join(body))
     lines.append('].')
+    lines.append('(* sites excused by a `known` entry c14:unguarded:<method>:<callee> of known_findings.json *)')
+    lines.append('Definition known_unguarded : list (string * string) := [')
+    lines.append(';\n'.join('  (%s, %s)' % (coq_string(m), coq_string(c)) for m, c in known_unguarded()))
+    lines.append('].')
     with open(path, 'w') as f:
         f.write('\n'.join(lines) + '\n')
 
@@ -566,7 +593,7 @@ def main(argv):
         sys.stdout.write('timeouts_ast: cannot read/parse source: %s\n' % e)
         return 1
     if len(argv) >= 2 and argv[1] == '--json':
-        out = json.dumps(dict(repo=REPO, stats=stats, sites=sites,
+        out = json.dumps(dict(repo=REPO, stats=stats, sites=sites, known=[list(k) for k in known_unguarded()],
                               unguarded=[dict(cls=s['cls'], method=s['method'], callee=s['callee'], line=s['line'],
                                               file=s['file'], kind=s['kind']) for s in unguarded(sites)]), indent=1)
         if len(argv) >= 3:
